@@ -178,6 +178,13 @@ def correspond(ctx):
                     corr.disagree("trace-containment", {"estimator": e.name, "method": mname},
                                   {"predicted_param_writes": sorted(pw), "predicted_attr_writes": sorted(aw)},
                                   {"unpredicted_param_writes": miss_p, "unpredicted_attr_writes": miss_a})
+    # the trusted classification tables of the extractor, exercised against the installed numpy
+    from extract import validate_tables
+    problems, vstats = validate_tables.validate(ctx.repo, everything=ctx.thorough)
+    corr.hit("table-names-exercised", vstats["names_exercised"])
+    corr.hit("table-calls", vstats["successful_calls"])
+    for pb in problems:
+        corr.disagree("classification-table", pb, "listed as returning a fresh object / not writing its arguments", pb["problem"])
     if lines:
         out = run_driver(DRIVER, lines)
         for info, got in zip(line_info, out):
